@@ -79,6 +79,7 @@ Atropos, mapped to ids by the reference's own index → id table). That the acce
 code are the graph ones is C04 / C05. The equality "real code = this model = reference
 `Spec.Lachesis`" is checked three ways on every scenario of the `cons` stream; inside Lean
 "model = reference" is now closed for the `(frame, Atropos)` sequence of one epoch.
+Composition with the vector index (`Ctx`'s `obs`, `ok`, `hb` discharged for the combined model `Model/Indexed.lean`): `Consensus.indexed_eq_reference_partial` (Props/Consensus.lean).
 -/
 namespace C10
 open Model.Pos Model.Election
